@@ -174,10 +174,57 @@ def _fast_dsl_validation():
     lang_base.jsonschema = types.SimpleNamespace(validate=validate, ValidationError=jsonschema.ValidationError)
 
 
+_DRIVER_CLS = []
+
+
 def new_driver(sched, seed):
+    """The engine driver, with one addition needed when project scoping is on ([pecan] auth_enable): a pending
+    message / post-commit thread runs under the security context of its sender, as oslo.messaging (serialised
+    context) and post_tx_queue do; scheduler jobs already carry theirs through the real code."""
     m = mods()
-    d = m.ed.Driver(sched, seed)
+    if not _DRIVER_CLS:
+        class CtxDriver(m.ed.Driver):
+            _cur = None
+            as_admin = False     # harness-initiated calls act as the administrative service threads do
+
+            def add_pending(self, kind, payload):
+                pid = super().add_pending(kind, payload)
+                if m.auth_context.has_ctx():
+                    self.pending[pid]['ctx'] = m.auth_context.RpcContextSerializer().serialize_context(m.auth_context.ctx())
+                return pid
+
+            def _ctx(self):
+                if self._cur is not None and m.CONF.pecan.auth_enable:
+                    return m.auth_context.MistralContext.from_dict(dict(self._cur))
+                if self.as_admin and m.CONF.pecan.auth_enable:
+                    return m.auth_context.MistralContext(user_id=None, project_id=None, auth_token=None, is_admin=True)
+                return super()._ctx()
+
+            def _fire_item(self, item):
+                self._cur = item.get('ctx')
+                try:
+                    return super()._fire_item(item)
+                finally:
+                    self._cur = None
+        _DRIVER_CLS.append(CtxDriver)
+    d = _DRIVER_CLS[0](sched, seed)
+    purge_all()
     return d
+
+
+def purge_all():
+    """Driver.reset() deletes through project-scoped queries; rows written under another context (the
+    checker's project-less administrative one) would survive into the next scenario."""
+    m = mods()
+    from mistral.db.sqlalchemy import base as b
+    from mistral.db.v2.sqlalchemy import models
+    with m.db_api.transaction():
+        b.model_query(models.ActionExecution).delete(synchronize_session=False)
+        b.model_query(models.WorkflowExecution).update({'task_execution_id': None}, synchronize_session=False)
+        b.model_query(models.TaskExecution).delete(synchronize_session=False)
+        b.model_query(models.WorkflowExecution).delete(synchronize_session=False)
+        b.model_query(models.DelayedCall).delete(synchronize_session=False)
+        b.model_query(models.ScheduledJob).delete(synchronize_session=False)
 
 
 def apply_cfg(c):
@@ -196,6 +243,7 @@ def apply_integrity_cfg(delay, batch):
 
 def reset_cfg():
     CONF = mods().CONF
+    CONF.set_override('auth_enable', False, group='pecan')
     for k in ('check_interval', 'max_missed_heartbeats', 'first_heartbeat_timeout', 'batch_size'):
         CONF.clear_override(k, group='action_heartbeat')
     for k in ('execution_integrity_check_delay', 'execution_integrity_check_batch_size'):
@@ -464,6 +512,9 @@ class OpsRun:
         apply_cfg(self.cfg)
         apply_integrity_cfg(20, 5)
         self.wf = gen_wf(rng)
+        # half of the runs with project scoping of DB lookups active (the checker is an administrative thread)
+        self.auth = rng.random() < 0.5
+        self.m.CONF.set_override('auth_enable', self.auth, group='pecan')
         self.idx = {}            # action id -> model id
         self.info = {}           # model id -> dict(sync, parent, hb (tracked), state)
         self.ops = []            # model ops (Coq text)
@@ -517,7 +568,7 @@ class OpsRun:
         self.failed = True
         if self.report:
             self.ctx.fail(sig, what, {'suite': 'ops', 'key': self.key, 'cfg': self.cfg, 'workflow': self.wf['yaml'],
-                                      'scheduler': self.sched, 'trace': self.trace[-40:], 'detail': extra})
+                                      'scheduler': self.sched, 'auth_enable': getattr(self, 'auth', False), 'trace': self.trace[-40:], 'detail': extra})
 
     def where(self, w):
         """model id of the action at 'task' or 'task/index' ('adhoc' = the task-less one)"""
@@ -706,6 +757,7 @@ class OpsRun:
             p.set(m.th, 'schedule_on_action_complete', sched_wrapper)
             d.create_workflows(self.wf['yaml'])
             out, wf_id = d.start_workflow('wf', {})
+            d.as_admin = True
             self.trace.append('start_workflow')
             n_ops = rng.randrange(8, 26)
             weights = [('engine', 5), ('tick', 5), ('beat', 3), ('pass', 4), ('result', 2), ('exec', 2), ('deliver', 2),
@@ -762,8 +814,10 @@ class OpsRun:
         m = self.m
         d = new_driver(self.sched, self.ctx.seed)
         apply_cfg(self.cfg)
+        m.CONF.set_override('auth_enable', self.auth, group='pecan')
         d.create_workflows(self.wf['yaml'])
         d.start_workflow('wf', {})
+        d.as_admin = True
         for _ in range(60):
             n = 0
             while n < 200:
